@@ -115,7 +115,8 @@ called with are derived from the signature and the return type as in the theorem
 `retBitNames ret` of `QV/Proofs/EndToEnd05.lean`); `in_general` = the definition list lies in `inGeneralClass`
 over these names.  If so and the ancilla choices of the real compilation are given, the compiler model is run on
 them and its gate list, number of qubits and `[qubit_map[r] for r in returns.bitvec]` are returned, so that the
-harness can check that the circuit of the instance is the one the theorem speaks of. -/
+harness can check that the circuit of the instance is the one the theorem speaks of.  `uncompute` is the flag the
+real compilation was made with (the theorem quantifies over it). -/
 def e2eOp (j : Json) : R Json := do
   let sig ← parseSig (← j.getObjVal? "args")
   let ret ← C09.parseTy (← j.getObjVal? "ret")
@@ -135,7 +136,14 @@ def e2eOp (j : Json) : R Json := do
       pure (Json.mkObj (base ++ [("gates", gatesJ s.qc.gates.toList), ("num_qubits", toJson s.qc.numQubits),
         ("oq", Json.arr (rets.map fun r => optNatJ (Compiler.dictGet? s.qc.qmap r)).toArray),
         ("cache_hit", toJson (s.events.contains "cacheHit")),
-        ("choices_left", toJson s.choices.length)]))
+        ("choices_left", toJson s.choices.length),
+        -- where the final `qubit_map` of the compiler model leaves the argument bit NAMES (a definition that
+        -- re-binds an argument moves the name; `input_qubits` stays `[0..n)`, `input_qubits_range`), and the
+        -- hypothesis of `C05_end_to_end_inputs` (same Boolean as `C02.inputsFresh`)
+        ("arg_qubits", Json.arr (inputs.map fun r => optNatJ (Compiler.dictGet? s.qc.qmap r)).toArray),
+        ("inputs_fresh", toJson (decide inputs.Nodup && inputs.all fun n =>
+          !Compiler.reservedName n && !(defs.map (·.1)).contains n)),
+        ("input_qubits", toJson (inputQubits (translateArguments sig)))]))
 
 def handle (op : String) (j : Json) : Option (R Json) :=
   match op with
